@@ -4,6 +4,7 @@ import EduceModel.Spec.Eq
 import EduceModel.Spec.Cmp
 import EduceModel.Spec.Hash
 import EduceModel.Spec.Clone
+import EduceModel.Spec.Debug
 /-
   Line-protocol driver: one JSON array per line in, one JSON array per line out.
   The executable definitions it runs are exactly the ones the theorems are about
@@ -24,6 +25,7 @@ structure FieldJ where
   ord : OrdField
   hash : HashField
   clone : CloneField
+  debug : DbgField
   deriving Inhabited
 
 structure VariantJ where
@@ -31,12 +33,16 @@ structure VariantJ where
   shape : Shape
   fields : Array FieldJ
   disc : Option Int
+  vname : NameCfg
+  namedField : Option Bool
   deriving Inhabited
 
 structure DefJ where
   isEnum : Bool
   variants : Array VariantJ
   ordMode : String     -- "ord" | "partialord" | "both"
+  name : Educe.Ident
+  tname : NameCfg
   copy : Bool          -- Copy educed next to Clone
   isUnion : Bool
   deriving Inhabited
@@ -50,6 +56,8 @@ structure St where
   cloneV : Std.HashMap (String × Nat) Nat := {}               -- (ty, a) ↦ id of a.clone()
   cloneF : Std.HashMap (String × Nat × Nat) Nat := {}         -- (ty, dst, src) ↦ id of dst after clone_from
   methV : Std.HashMap (String × Nat × Nat) Nat := {}          -- (kind, id, a) ↦ id of m(a)
+  dbgV : Std.HashMap (String × Nat) (String × String) := {}   -- (ty, a) ↦ ({:?}, {:#?}) of the leaf
+  methD : Std.HashMap (Nat × Nat) (String × String) := {}     -- (id, a) ↦ output of the debug method
   defs : Std.HashMap Nat DefJ := {}
 
 def jstr (j : Json) : String := (j.getStr?).toOption.getD ""
@@ -66,12 +74,19 @@ def parseOrd3 (s : String) : Option Ord3 :=
 def parseShape (s : String) : Shape :=
   if s == "tuple" then .tuple else if s == "named" then .named else .unit
 
+def parseNameCfg (j : Json) : NameCfg :=
+  let k := jstr (jfield j "kind")
+  if k == "disable" then .disable
+  else if k == "custom" then .custom (jstr (jfield j "name")).toList
+  else .default
+
 def parseField (j : Json) : FieldJ :=
   let name := (jstr (jfield j "name")).toList
   let e := jfield j "eq"
   let o := jfield j "ord"
   let h := jfield j "hash"
   let c := jfield j "clone"
+  let g := jfield j "debug"
   { name := name, ty := jstr (jfield j "ty"),
     eq := { name := name, ignore := jbool (jfield e "ignore"),
             method := (jopt (jfield e "method")).map jnat },
@@ -79,16 +94,22 @@ def parseField (j : Json) : FieldJ :=
              method := (jopt (jfield o "method")).map jnat,
              rank := (jopt (jfield o "rank")).map jint },
     hash := { name := name, ignore := jbool (jfield h "ignore"), method := (jopt (jfield h "method")).map jnat },
-    clone := { name := name, method := (jopt (jfield c "method")).map jnat } }
+    clone := { name := name, method := (jopt (jfield c "method")).map jnat },
+    debug := { name := name, ignore := jbool (jfield g "ignore"), method := (jopt (jfield g "method")).map jnat,
+               rename := (jopt (jfield g "rename")).map fun r => (jstr r).toList } }
 
 def parseDef (j : Json) : DefJ :=
   { isEnum := jstr (jfield j "kind") == "enum",
     ordMode := jstr (jfield j "ordmode"),
     copy := jbool (jfield j "copy"),
+    name := (jstr (jfield j "name")).toList,
+    tname := parseNameCfg (jfield j "tname"),
     isUnion := jstr (jfield j "kind") == "union",
     variants := (jarr (jfield j "variants")).map fun v =>
       { name := (jstr (jfield v "name")).toList, shape := parseShape (jstr (jfield v "shape")),
         disc := (jopt (jfield v "disc")).map jint,
+        vname := parseNameCfg (jfield v "vname"),
+        namedField := (jopt (jfield v "named_field")).map jbool,
         fields := (jarr (jfield v "fields")).map parseField } }
 
 def DefJ.eqType (d : DefJ) : EqType :=
@@ -116,6 +137,12 @@ def DefJ.cloneType (d : DefJ) : CloneType :=
   else if d.isEnum then .enum (d.variants.toList.map mk)
   else .struct (mk (d.variants[0]!))
 
+def DefJ.dbgType (d : DefJ) : DbgType :=
+  let mk (v : VariantJ) : DbgVariant :=
+    { name := v.name, shape := v.shape, fields := v.fields.toList.map (·.debug), vname := v.vname, namedField := v.namedField }
+  if d.isEnum then .enum d.name (d.variants.toList.map mk) d.tname
+  else .struct { mk (d.variants[0]!) with name := d.name } d.tname
+
 def DefJ.tyOf (d : DefJ) (p : Pos) : String :=
   match d.variants[p.variant]? with
   | some v => match v.fields[p.field]? with
@@ -141,6 +168,14 @@ def St.cloneOps (st : St) (d : DefJ) : CloneOps Nat :=
   { clone := fun p x => (st.cloneV.get? (d.tyOf p, x)).getD 999,
     cloneFrom := fun p x y => (st.cloneF.get? (d.tyOf p, x, y)).getD 999,
     method := fun m x => (st.methV.get? ("clone", m, x)).getD 999 }
+
+def St.dbgOps (st : St) (d : DefJ) : DbgOps Nat :=
+  { fmt := fun p alt x => match st.dbgV.get? (d.tyOf p, x) with
+      | some (c, pr) => if alt then pr else c
+      | none => "?",
+    method := fun m alt x => match st.methD.get? (m, x) with
+      | some (c, pr) => if alt then pr else c
+      | none => "?" }
 
 def showWrites (ws : List (Write String)) : Json :=
   Json.arr (ws.toArray.map fun w => match w with
@@ -235,6 +270,41 @@ def handle (st : St) (j : Json) : St × Option Json :=
     ({ st with cloneF := st.cloneF.insert (jstr a[1]!, jnat a[2]!, jnat a[3]!) (jnat a[4]!) }, none)
   else if op == "methv" then
     ({ st with methV := st.methV.insert (jstr a[1]!, jnat a[2]!, jnat a[3]!) (jnat a[4]!) }, none)
+  else if op == "dbgv" then
+    ({ st with dbgV := st.dbgV.insert (jstr a[1]!, jnat a[2]!) (jstr a[3]!, jstr a[4]!) }, none)
+  else if op == "methd" then
+    ({ st with methD := st.methD.insert (jnat a[1]!, jnat a[2]!) (jstr a[3]!, jstr a[4]!) }, none)
+  else if op == "dbg" then
+    -- ["dbg", def, va, [fa], alt] → output string
+    match st.defs.get? (jnat a[1]!) with
+    | none => (st, some (Json.arr #["error", "unknown def"]))
+    | some d =>
+      let t := d.dbgType
+      let x : Val Nat := ⟨jnat a[2]!, natList a[3]!⟩
+      let alt := jbool a[4]!
+      let ops := st.dbgOps d
+      let m : Json := match Gen.Debug.body t with
+        | .error _ => Json.str "<rejected>"
+        | .ok bd => match Sem.evalFmt ops t bd x alt with
+          | some s => Json.str s
+          | none => Json.str "<unbound>"
+      let s : Json := match Spec.effectiveShape t x with
+        | some sh => Json.str (sh.render ops alt)
+        | none => Json.str "<nothing to show>"
+      (st, some (Json.arr #["dbg", a[1]!, a[2]!, a[3]!, a[4]!, m, s]))
+  else if op == "dbgd" then
+    -- parameter-free definition printed next to its #[derive(Debug)] twin: equal output expected;
+    -- model side: effective shape vs derive shape, both rendered
+    match st.defs.get? (jnat a[1]!) with
+    | none => (st, some (Json.arr #["error", "unknown def"]))
+    | some d =>
+      let t := d.dbgType
+      let x : Val Nat := ⟨jnat a[2]!, natList a[3]!⟩
+      let alt := jbool a[4]!
+      let ops := st.dbgOps d
+      let e := (Spec.effectiveShape t x).map fun sh => sh.render ops alt
+      let dv := (Spec.deriveShape t x).map fun sh => sh.render ops alt
+      (st, some (Json.arr #["dbgd", a[1]!, a[2]!, a[3]!, a[4]!, Json.bool (e == dv), Json.bool true]))
   else if op == "hash" then
     -- ["hash", def, va, [fa]] → fed data as a list of strings
     match st.defs.get? (jnat a[1]!) with
